@@ -358,6 +358,15 @@ struct Family {
     build: fn(usize) -> Vec<u8>,
 }
 
+/// The same, with the builder as a closure (generated families).
+struct Fam<'a> {
+    name: String,
+    ty: &'static str,
+    build: &'a dyn Fn(usize) -> Vec<u8>,
+    /// an input the type does not accept ends the ladder quietly (generated families only)
+    lenient: bool,
+}
+
 fn arr_head(n: usize) -> Vec<u8> {
     let mut b = vec![];
     head(&mut b, 4, n as u64);
@@ -379,6 +388,14 @@ fn rep(prefix: Vec<u8>, n: usize, elem: impl Fn(usize) -> Vec<u8>) -> Vec<u8> {
         b.extend_from_slice(&elem(i));
     }
     b
+}
+
+/// `prefix`, a protected header with n extras (labels 1000..), an unprotected header with n other
+/// extras (labels 2000000..), `suffix`.
+fn two_buckets(prefix: Vec<u8>, n: usize, suffix: Vec<u8>) -> Vec<u8> {
+    let inner = rep(map_head(n), n, |i| [uint(1000 + i as u64), vec![0x00]].concat());
+    let unprot = rep(map_head(n), n, |i| [uint(2_000_000 + i as u64), vec![0x00]].concat());
+    [prefix, bstr(&inner), unprot, suffix].concat()
 }
 
 fn families() -> &'static Vec<Family> {
@@ -415,12 +432,30 @@ fn families() -> &'static Vec<Family> {
             Family { name: "key with n extra parameters, labels scattered", ty: "CoseKey", build: |n| rep([map_head(n + 1), vec![0x01, 0x01]].concat(), n, move |i| [uint(1000 + ((i * 7919) % n) as u64), vec![0x00]].concat()) },
             Family { name: "claims set with n extra text claims, names descending", ty: "ClaimsSet", build: |n| rep(map_head(n), n, move |i| { let t = format!("{:06}", n - 1 - i); let mut b = vec![]; head(&mut b, 3, t.len() as u64); b.extend_from_slice(t.as_bytes()); b.push(0x00); b }) },
             Family { name: "key with n text key operations, descending", ty: "CoseKey", build: |n| rep([vec![0xa2, 0x01, 0x01, 0x04], arr_head(n)].concat(), n, move |i| { let t = format!("{:06}", n - 1 - i); let mut b = vec![]; head(&mut b, 3, t.len() as u64); b.extend_from_slice(t.as_bytes()); b }) },
+            // two wide places of one input at once (sizes add, so only a cost that multiplies them shows)
+            Family { name: "COSE_Sign1 with n extras in the protected and n other extras in the unprotected header", ty: "CoseSign1", build: |n| two_buckets(vec![0x84], n, vec![0xf6, 0x40]) },
+            Family { name: "COSE_Signature with n + n extras in its two headers", ty: "CoseSignature", build: |n| two_buckets(vec![0x83], n, vec![0x40]) },
+            Family { name: "COSE_Mac0 with n + n extras in its two headers", ty: "CoseMac0", build: |n| two_buckets(vec![0x84], n, vec![0x41, 0x01, 0x40]) },
+            Family { name: "COSE_Encrypt0 with n + n extras in its two headers", ty: "CoseEncrypt0", build: |n| two_buckets(vec![0x83], n, vec![0x41, 0x01]) },
+            Family { name: "COSE_recipient with n + n extras in its two headers", ty: "CoseRecipient", build: |n| two_buckets(vec![0x83], n, vec![0xf6]) },
+            Family { name: "COSE_Sign whose body and whose one signer carry n + n extras each", ty: "CoseSign", build: |n| [two_buckets(vec![0x84], n, vec![0xf6, 0x81]), two_buckets(vec![0x83], n, vec![0x40])].concat() },
+            Family { name: "COSE_Encrypt whose body and whose one recipient carry n + n extras each", ty: "CoseEncrypt", build: |n| [two_buckets(vec![0x84], n, vec![0x41, 0x01, 0x81]), two_buckets(vec![0x83], n, vec![0xf6])].concat() },
+            Family { name: "COSE_Mac whose body and whose one recipient carry n + n extras each", ty: "CoseMac", build: |n| [two_buckets(vec![0x85], n, vec![0x41, 0x01, 0x40, 0x81]), two_buckets(vec![0x83], n, vec![0xf6])].concat() },
+            Family { name: "header with n extras and a counter-signature with n + n extras", ty: "Header", build: |n| [map_head(n + 1), vec![0x07], two_buckets(vec![0x83], n, vec![0x40]), rep(vec![], n, |i| [uint(5_000_000 + i as u64), vec![0x00]].concat())].concat() },
+            Family { name: "key with n extras and n text key operations", ty: "CoseKey", build: |n| [rep([map_head(n + 2), vec![0x01, 0x01, 0x04], arr_head(n)].concat(), n, |i| { let t = format!("{:06}", i); let mut b = vec![]; head(&mut b, 3, t.len() as u64); b.extend_from_slice(t.as_bytes()); b }), rep(vec![], n, |i| [uint(1000 + i as u64), vec![0x00]].concat())].concat() },
+            Family { name: "header with n crit entries and n extras", ty: "Header", build: |n| [rep([map_head(n + 1), vec![0x02], arr_head(n)].concat(), n, |_| vec![0x01]), rep(vec![], n, |i| [uint(1000 + i as u64), vec![0x00]].concat())].concat() },
+            Family { name: "KDF context with n extras in the SuppPubInfo protected header and n trailing strings", ty: "CoseKdfContext", build: |n| {
+                let inner = rep(map_head(n), n, |i| [uint(1000 + i as u64), vec![0x00]].concat());
+                rep([arr_head(n + 4), vec![0x01, 0x83, 0xf6, 0xf6, 0xf6, 0x83, 0xf6, 0xf6, 0xf6, 0x82, 0x18, 0x80], bstr(&inner)].concat(), n, |_| vec![0x41, 0x07])
+            } },
+            Family { name: "COSE_Sign with n/40 signers of 20 + 20 extras each", ty: "CoseSign", build: |n| rep([vec![0x84, 0x40, 0xa0, 0xf6], arr_head(n / 40 + 1)].concat(), n / 40 + 1, |_| two_buckets(vec![0x83], 20, vec![0x40])) },
+            Family { name: "key set of n/20 keys with 20 extras each", ty: "CoseKeySet", build: |n| rep(arr_head(n / 20 + 1), n / 20 + 1, |_| rep([map_head(21), vec![0x01, 0x01]].concat(), 20, |i| [uint(1000 + i as u64), vec![0x00]].concat())) },
         ]
     })
 }
 
 /// CPU time (ns) of decode + follow-ups of the family's type on the input of width n (min of 2).
-fn time_family(f: &Family, n: usize) -> Result<(u64, usize), String> {
+fn time_family(f: &Fam, n: usize) -> Result<(u64, usize), String> {
     let t = all_types().iter().find(|t| t.name == f.ty).ok_or("type")?;
     let b = (f.build)(n);
     let mut best = u64::MAX;
@@ -432,6 +467,9 @@ fn time_family(f: &Family, n: usize) -> Result<(u64, usize), String> {
             return Err(format!("harness: family '{}' with n = {} is not accepted by {}", f.name, n, f.ty));
         }
         best = best.min(dt);
+        if dt > 2_000_000_000 {
+            break; // slow enough that noise does not matter; do not pay for it twice
+        }
     }
     Ok((best.max(1), b.len()))
 }
@@ -441,13 +479,36 @@ fn time_family(f: &Family, n: usize) -> Result<(u64, usize), String> {
 /// algorithm gives 16x at every step once its quadratic term dominates).
 fn scaling_case(idx: usize, ctx: &mut Ctx) -> CaseResult {
     let f = &families()[idx];
+    ladder(&Fam { name: f.name.to_string(), ty: f.ty, build: &f.build, lenient: false }, ctx)
+}
+
+fn ladder(f: &Fam, ctx: &mut Ctx) -> CaseResult {
     ctx.classf(format!("scaling:{}", f.ty));
+    if f.lenient {
+        // a generated family that the type does not accept (at any width) is not a family
+        let t = all_types().iter().find(|t| t.name == f.ty).ok_or("type")?;
+        for n in [8usize, 500, 8000] {
+            let b = (f.build)(n);
+            match catch(|| (t.follow)(&b, b"aad", b"payload")) {
+                Ok(true) => {}
+                Ok(false) => {
+                    ctx.class("scaling:generated-family-not-accepted");
+                    return Ok(());
+                }
+                Err(p) => fail!("{}: panic on {} with n = {}: {}", f.ty, f.name, n, p),
+            }
+        }
+    }
     let mut n = 500usize;
     let mut ratios: Vec<(usize, f64, u64)> = vec![];
     let (mut t_prev, _) = time_family(f, n)?;
     loop {
         let n4 = n * 4;
-        let (t4, len4) = time_family(f, n4)?;
+        let (t4, len4) = match time_family(f, n4) {
+            Ok(x) => x,
+            Err(e) if f.lenient && e.starts_with("harness:") => return Ok(()),
+            Err(e) => return Err(e),
+        };
         if t4 >= 20_000_000 {
             ratios.push((n4, t4 as f64 / t_prev as f64, t4));
         }
@@ -554,7 +615,40 @@ fn dup_in_array(i: &mut Item, at: &mut usize, which: u64) -> bool {
     }
 }
 
+/// A generated family: a valid item of a drawn type in which one, two or all maps (headers of any
+/// bucket and level, keys, claims sets, opaque value maps, protected contents) are widened by n
+/// fresh entries each, labels ascending / descending / scattered, integer or text.
+fn widened_ladder(g: &mut Gen, ctx: &mut Ctx) -> CaseResult {
+    let types = all_types();
+    let cands: Vec<&crate::props::types::TypeOps> = types.iter().filter(|t| !matches!(t.shape, crate::props::types::Shape::Label | crate::props::types::Shape::RegLabel | crate::props::types::Shape::Any | crate::props::types::Shape::Party)).collect();
+    let t = cands[g.below(cands.len())];
+    let item = gen_for_shape(g, t.shape, &mut Faults::none());
+    let nmaps = count_maps(&item);
+    if nmaps == 0 {
+        return Ok(());
+    }
+    let which: Vec<usize> = match g.below(3) {
+        0 => vec![g.below(nmaps)],
+        1 => vec![g.below(nmaps), g.below(nmaps)],
+        _ => (0..nmaps.min(6)).collect(),
+    };
+    let order = g.below(3);
+    let text = g.ratio(1, 4);
+    let build = |n: usize| -> Vec<u8> {
+        let mut it = item.clone();
+        widen_maps(&mut it, &which, n / which.len().max(1) + 1, order, text);
+        encode(&it)
+    };
+    ctx.class("scaling:generated-family");
+    ctx.classf(format!("scaling:generated-family:{}-of-{}-maps", which.len().min(3), nmaps.min(4)));
+    let name = format!("generated {} with maps {:?} of {} widened ({} labels, order {}): {}", t.name, which, nmaps, if text { "text" } else { "integer" }, order, hex_trunc(&encode(&item), 40));
+    ladder(&Fam { name, ty: t.name, build: &build, lenient: true }, ctx)
+}
+
 fn case(g: &mut Gen, ctx: &mut Ctx) -> CaseResult {
+    if !ctx.quiet && g.ratio(1, 1500) {
+        return widened_ladder(g, ctx);
+    }
     let aad = g.small_bytes();
     let payload = g.small_bytes();
     let b = match g.weighted(&[3, 6, 2, 1]) {
